@@ -5,6 +5,7 @@
   `a < b`, `a == b`, `b < a` holds — for quantities written in different units and prefixes.
 -/
 import Proofs.CompareDirect
+import Proofs.CompareSimple
 
 namespace Measured.C12
 open Measured
@@ -62,4 +63,51 @@ theorem coherent_of_values {x y : Rat} {req rqe rlt rgt : Bool}
       · cases hq : rlt; rfl; exact absurd (h3.1 hq) (not_lt.2 (le_of_lt h))
       · cases hq : req; rfl; exact absurd (h1.1 hq) (ne_of_gt h)
 
+/-! ### through the factor planner: quantities in simple units (prefixed, compound) -/
+
+/-- `==` decides by SI value for quantities written in simple units — km/h against m/s, kilograms
+    against pounds — in every state reached by unit operations, consistent declarations and conversions
+    (direct or through the planner).  `SimplePair` is stated for the unprefixed forms the comparison
+    converts between. -/
+theorem eq_decides_by_value_simple (hσp : ∀ k, 0 < σ k) {K : List Dim} {plan : List (Rough Rat)} {c c' : Conv Rat}
+    (hr : Reach2 σ c) {a b : Qty Rat} {r : Bool}
+    (ha : a.unit < c.st.units.length) (hb : b.unit < c.st.units.length)
+    (hsp : SimplePair σ K { c with st := ((c.st.unprefixedUnit a.unit).1.unprefixedUnit b.unit).1 }
+      (c.st.unprefixedUnit a.unit).2 ((c.st.unprefixedUnit a.unit).1.unprefixedUnit b.unit).2 plan)
+    (h : CM.exec (Qty.eqCore a b) c = (.ok (some r), c')) :
+    (r = true ↔ C06.si σ c.st a = C06.si σ c.st b) :=
+  eqCore_simple_iff hσp hr ha hb hsp h
+
+theorem lt_decides_by_value_simple (hσp : ∀ k, 0 < σ k) {K : List Dim} {plan : List (Rough Rat)} {c c' : Conv Rat}
+    (hr : Reach2 σ c) {a b : Qty Rat} {r : Bool}
+    (ha : a.unit < c.st.units.length) (hb : b.unit < c.st.units.length)
+    (hsp : SimplePair σ K { c with st := ((c.st.unprefixedUnit a.unit).1.unprefixedUnit b.unit).1 }
+      (c.st.unprefixedUnit a.unit).2 ((c.st.unprefixedUnit a.unit).1.unprefixedUnit b.unit).2 plan)
+    (h : CM.exec (Qty.ltCore a b) c = (.ok (some r), c')) :
+    (r = true ↔ C06.si σ c.st a < C06.si σ c.st b) :=
+  ltCore_simple_iff hσp hr ha hb hsp h
+
 end Measured.C12
+
+namespace Measured.C06
+open Measured
+variable {σ : UId → Rat}
+
+/-- `a + b`, `b` in a simple unit: the SI value of the sum is the sum of the SI values. -/
+theorem add_simple (hσ : ∀ k, σ k ≠ 0) {K : List Dim} {plan : List (Rough Rat)} {c c' : Conv Rat}
+    (hr : Reach2 σ c) {a b q : Qty Rat}
+    (ha : a.unit < c.st.units.length) (hb : b.unit < c.st.units.length)
+    (hsp : SimplePair σ K c b.unit a.unit plan)
+    (h : CM.exec (Qty.add a b) c = (.ok q, c')) :
+    q.unit = a.unit ∧ si σ c.st q = si σ c.st a + si σ c.st b :=
+  add_simple_exact hσ hr ha hb hsp h
+
+theorem sub_simple (hσ : ∀ k, σ k ≠ 0) {K : List Dim} {plan : List (Rough Rat)} {c c' : Conv Rat}
+    (hr : Reach2 σ c) {a b q : Qty Rat}
+    (ha : a.unit < c.st.units.length) (hb : b.unit < c.st.units.length)
+    (hsp : SimplePair σ K c b.unit a.unit plan)
+    (h : CM.exec (Qty.sub a b) c = (.ok q, c')) :
+    q.unit = a.unit ∧ si σ c.st q = si σ c.st a - si σ c.st b :=
+  sub_simple_exact hσ hr ha hb hsp h
+
+end Measured.C06
